@@ -118,6 +118,8 @@ def show(n, depth=0):
         return n.get('q') or n.get('n')
     if k == 'Mem':
         b = n.get('b')
+        if n['m'] == '':
+            return show(b, d)
         if is_node(b) and strip_all(b)['k'] == 'This':
             return 'this->' + n['m']
         return '%s%s%s' % (show(b, d), '->' if n.get('arrow') else '.', n['m'])
@@ -297,6 +299,23 @@ class Facts:
         if e is None:
             raise AnalysisBroken('anchor enum not found: %s' % q)
         return {c['n']: c['v'] for c in e['consts']}
+
+    def enumerator(self, name):
+        """Value of an enumerator by (unqualified) name, whatever enum declares it."""
+        self._index()
+        hits = set()
+        for e in self._enums.values():
+            for c in e['consts']:
+                if c['n'] == name:
+                    hits.add(c['v'])
+        for rel in self.units:
+            for e in self.unit(rel)['enums']:
+                for c in e['consts']:
+                    if c['n'] == name:
+                        hits.add(c['v'])
+        if len(hits) != 1:
+            raise AnalysisBroken('enumerator %s: %d definitions' % (name, len(hits)))
+        return hits.pop()
 
     def macro(self, name):
         self._index()
